@@ -69,7 +69,7 @@ class C13(EgSpec):
             out.append(('violation', r.split(' at operation')[0][:60], r + '; asserted: {%s}' % '; '.join(describe_history(pc)), {}))
             return out
         if stream['name'] == 'invariant':
-            bad = egc_verdict(model_obs, ['covered', 'invb', 'handles-cover', 'self-symmetries', 'stored-live', 'handles-rep'])   # terms-wf is a premise on the INPUT (no name bound twice in one node), reported but not required
+            bad = egc_verdict(model_obs, ['covered', 'invb', 'handles-cover', 'self-symmetries', 'stored-live', 'handles-rep'])   # terms-static is a premise on the INPUT (no name bound twice in one node), reported but not required
             if bad:
                 out.append(('differs', 'invariant-premise', 'on this history the executable premise of the proved equivalence theorem, or the executable invariant, is false in the model: %s (%s)' % (bad, model_obs.strip()), {}))
             return out
